@@ -40,10 +40,10 @@ func famReady(tasks, epics, depth int) SeqModel {
 
 // plan documents
 func famPlan(depth int) SeqModel {
-	return SeqModel{Name: "plan", MaxTasks: 4, MaxEpics: 2, Depth: depth,
+	return SeqModel{Name: "plan", MaxTasks: 5, MaxEpics: 2, Depth: depth,
 		Agents: []string{"a1"}, CmdNames: []string{"new_task", "plan", "set", "sequence", "prune"},
 		StateArgs: []string{"done"}, ClaimArgs: []string{},
-		Extras: []string{}, PlanDocs: "DocsSmall", ViewMode: "graph"}
+		Extras: []string{}, PlanDocs: "DocsAll", ViewMode: "graph"}
 }
 
 // everything, small
@@ -85,13 +85,18 @@ func famLegacy(n int, cmds ...string) SeqModel {
 	return m
 }
 
+// the full family with all three input modes (json stdin, flags, --body-stdin)
+func famFullModes(depth int) SeqModel {
+	return with(famFull(depth), func(m *SeqModel) { m.Extras = append(m.Extras, "modes"); m.Name = "full+modes" })
+}
+
 func init() {
 	registry["C06"] = func() Check {
 		return &SeqCheck{Prop: "C06",
 			Ideal: famState(5), IdealProps: []string{"P_C06", "P_C10"}, IdealInvs: []string{"CodeReadyIsSpecReady"}, Probes: probeBlankAgents,
 			Proc: &ProcCheck{Prop: "C06", Scenarios: "StateScenarios", IdealInvs: []string{"Serializable"}, Only: []string{"C06_serial", "C06_final"}},
 			GenQuick: famState(3), GenThorough: famState(5), SampleQuick: 150,
-			Sim: with(famState(12), func(m *SeqModel) { m.MaxTasks = 3 }), SimNumQuick: 60, SimNumThorough: 2000}
+			Sim: with(famState(12), func(m *SeqModel) { m.MaxTasks = 3; m.Extras = append(m.Extras, "modes") }), SimNumQuick: 80, SimNumThorough: 2000}
 	}
 	registry["C07"] = func() Check {
 		return &SeqCheck{Prop: "C07",
@@ -121,8 +126,8 @@ func init() {
 		return &SeqCheck{Prop: "C10",
 			Ideal: famFull(3), IdealDeep: famFull(4), IdealProps: []string{"P_C10"}, Probes: append(append(append([]emitted{}, probeHalf...), probeD10...), probeTorn...),
 			Proc: &ProcCheck{Prop: "C10", Scenarios: "FailScenarios", IdealInvs: []string{"Serializable"}, Only: []string{"C10_serial"}},
-			GenQuick: famFull(2), GenThorough: famFull(4), SampleQuick: 60,
-			Sim: with(famFull(10), func(m *SeqModel) { m.MaxTasks = 3 }), SimNumQuick: 80, SimNumThorough: 3000}
+			GenQuick: famFull(2), GenThorough: famFullModes(3), SampleQuick: 60,
+			Sim: with(famFullModes(10), func(m *SeqModel) { m.MaxTasks = 3 }), SimNumQuick: 100, SimNumThorough: 3000}
 	}
 	registry["C11"] = func() Check {
 		return &SeqCheck{Prop: "C11",
@@ -149,8 +154,8 @@ func init() {
 		return &SeqCheck{Prop: "C16",
 			Ideal: famFull(3), IdealDeep: famFull(4), IdealProps: []string{"P_C16"}, Probes: probeHalf,
 			Proc: &ProcCheck{Prop: "C16", Scenarios: "PruneScenarios", IdealInvs: []string{"Serializable"}, Only: []string{"C16_prune_truth"}},
-			GenQuick: famFull(2), GenThorough: famFull(4), SampleQuick: 60,
-			Sim: with(famFull(10), func(m *SeqModel) { m.MaxTasks = 3 }), SimNumQuick: 80, SimNumThorough: 3000}
+			GenQuick: famFull(2), GenThorough: famFullModes(3), SampleQuick: 60,
+			Sim: with(famFullModes(10), func(m *SeqModel) { m.MaxTasks = 3 }), SimNumQuick: 100, SimNumThorough: 3000}
 	}
 	registry["C20"] = func() Check {
 		return &SeqCheck{Prop: "C20",
@@ -171,7 +176,7 @@ func init() {
 	registry["C12"] = func() Check {
 		return &SeqCheck{Prop: "C12",
 			Ideal: famFull(3), IdealDeep: famFull(4), IdealProps: []string{"P_C12"}, Extra: fileCases, Probes: probeTorn,
-			GenQuick: famFull(2), GenThorough: famFull(4), SampleQuick: 60,
-			Sim: with(famFull(10), func(m *SeqModel) { m.MaxTasks = 3 }), SimNumQuick: 80, SimNumThorough: 3000}
+			GenQuick: famFull(2), GenThorough: famFullModes(3), SampleQuick: 60,
+			Sim: with(famFullModes(10), func(m *SeqModel) { m.MaxTasks = 3 }), SimNumQuick: 100, SimNumThorough: 3000}
 	}
 }
